@@ -7,6 +7,7 @@ PID = 'C19'
 TARGETS = ['Properties/C19.vo', 'Bridge/EqBridge.vo', 'Bridge/InitBridge.vo', 'Bridge/RefBridge.vo', 'Bridge/PlumbingBridge.vo', 'Bridge/MiscPacketBridge.vo']
 KERNELS = ['G10_eq', 'G15_init', 'G15b_init_structural', 'G16_ref', 'G16c_prototype', 'G17_builder', 'G19_field_ctor', 'G20b_packet_misc']
 PROP_FILE = 'Properties/C19.v'
+WHOLE_PACKET = True      # Tie A over all of the pack / unpack machinery (check.py: WHOLE_PACKET_KERNELS)
 
 
 def expected(table, c, kw, depth=0):
@@ -110,6 +111,7 @@ def run(tier, seed, rng):
                 if b[0] == 'opt' and b[1][0] == 'leaf' and b[1][1][0] == 'int' and rng.random() < 0.4:
                     fd['body'] = b[:3] + (rng.randrange(5),)
         G = pktcases.Group(table, gid)
+        G.local = (gid % 4 == 3)       # a quarter of the tables: classes declared inside a function (prototypes cloned from the live object)
         vg = gen.ValGen(rng, table)
         for c in table:
             names = [i for i, fd in enumerate(table[c]['fields']) if fd['body'][0] != 'em']
